@@ -127,6 +127,12 @@ class Run:
                 known_hits.append((o, known[k]))
             else:
                 violations.append(o)
+        if only_key:
+            hit = [o for o in self.obls if o["key"] == only_key]
+            if not hit:
+                print(f"replay: instance `{only_key}` no longer exists on the current tree")
+            for o in hit:
+                print(f"replay: instance `{o['key']}` -> {o['status']}: {o['desc'][:300]}" + (f" (at {o['site']})" if o["site"] else ""))
         for o, what in known_hits:
             print(f"KNOWN-FINDING: property={self.pid} {what} [{o['key']}]")
         for o in violations:
